@@ -74,7 +74,7 @@ def binding_selftest(trace, name, corrupt, want=40):
 
 
 def codec_check(pid, tier, suites, mc_cfgs, level_note, case_of, corrupt, profiles=("debug",),
-                extra_cov=None):
+                extra_cov=None, defer=False):
     """Generic sans-IO procedure: model-check the reference laws, run the harness suites
     against the real code (per build profile), validate every event with TLC."""
     t0 = time.time()
@@ -124,6 +124,8 @@ def codec_check(pid, tier, suites, mc_cfgs, level_note, case_of, corrupt, profil
         cov["binding_selftest_lines_rejected"] = selftested
         if extra_cov:
             cov.update(extra_cov)
+        if defer:
+            return verdict, cov, level_note
         rc = verdict.finish()
         vlib.write_evidence(pid, tier, "model_checking", cov,
                             ASSUME_COMMON + level_note, time.time() - t0, len(verdict.violations))
@@ -227,7 +229,7 @@ def regroup(raw, out):
 
 
 def e2e_check(pid, tier, scenarios, trace_spec, corrupt, note, mc_cfgs=(), threads=2,
-              case_of=None, extra_cov=None, runs=1, par=1, mc_results=()):
+              case_of=None, extra_cov=None, runs=1, par=1, mc_results=(), defer=False):
     """End-to-end procedure: model-check the property's model, run the scenarios against
     the real endpoints, validate every scenario history with the property's trace spec."""
     import scen  # noqa: F401
@@ -286,6 +288,8 @@ def e2e_check(pid, tier, scenarios, trace_spec, corrupt, note, mc_cfgs=(), threa
                 cov["binding_selftest_scenarios_rejected"] = n
         if extra_cov:
             cov.update(extra_cov)
+        if defer:
+            return verdict, cov, note
         rc = verdict.finish()
         vlib.write_evidence(pid, tier, "model_checking", cov, ASSUME_COMMON + note,
                             time.time() - t0, len(verdict.violations))
@@ -480,3 +484,108 @@ def c06(tier):
 
 
 PROPS["C06"] = c06
+
+
+def combine(pid, tier, parts):
+    """Merges deferred (verdict, coverage, notes) parts into one verdict + evidence file."""
+    t0 = combine.t0
+    verdict = vlib.Verdict(pid)
+    cov = {"states": 0, "transitions": 0, "traces_validated_against_impl": 0, "samples": [],
+           "model_checking": [], "parts": [], "repo_head": vlib.repo_head()}
+    notes = []
+    for name, (v, c, n) in parts:
+        verdict.violations += v.violations
+        verdict.known += v.known
+        for k in ("states", "transitions", "traces_validated_against_impl"):
+            cov[k] += c.get(k, 0)
+        cov["samples"] += c.get("samples", [])[:3]
+        cov["model_checking"] += c.get("model_checking", [])
+        cov["parts"].append({"part": name, **{k: v2 for k, v2 in c.items()
+                                               if k not in ("samples", "model_checking")}})
+        notes += n
+    rc = verdict.finish()
+    vlib.write_evidence(pid, tier, "model_checking", cov, ASSUME_COMMON + notes,
+                        time.time() - t0, len(verdict.violations))
+    return rc
+
+
+combine.t0 = time.time()
+
+
+def _corrupt_c12(events):
+    ev = json.loads(json.dumps(events))
+    for e in ev:
+        if e.get("ev") == "peer_closed" and e["why"].get("k") == "ApplicationClosed":
+            e["why"]["code"] = [0, e["why"]["code"][1] + 1000]
+            return ev
+    for e in ev:
+        if e.get("ev") == "op_done" and e.get("tag") == "probe" and e.get("res") == "ok":
+            e["res"] = "timeout"
+            return ev
+    return None
+
+
+def _driver_rules(pid, tier, select, note):
+    import scen
+    scns = [s for s in scen.c12(tier, vlib.seed()) if select(s)]
+    for s in scns:
+        s["scn"] = s["scn"].replace("C12", pid)
+    return e2e_check(pid, tier, scns, "C12Trace.tla", _corrupt_c12, note,
+                     par=8, threads=4, defer=True)
+
+
+def _names(s):
+    return s["meta"]["names"]
+
+
+def c12(tier):
+    combine.t0 = time.time()
+    a = codec_check("C12", tier, ["ts"], [("WireMC.tla", "WireMC_%s.cfg" % tier)],
+                    ["frame histories over a 20-token alphabet to depth 3 (4 in thorough, sampled at the deepest level) "
+                     "on the four reading typestates, sync/buffered/async"],
+                    _case_basic, _corrupt_out_used, defer=True)
+    b = _driver_rules("C12", tier, lambda s: True,
+                      ["connection-level histories against the running driver in both roles with a raw QUIC peer: "
+                       "every single stream event of the catalogue (critical-stream duplicates/closures, frames on the control / "
+                       "request / session stream, truncations, invalid ids, malformed requests), selected pairs, sampled triples in thorough; "
+                       "outcome observed from outside (CONNECTION_CLOSE code, STOP_SENDING code, delivery, liveness probe) and judged by H3Rules.tla"])
+    return combine("C12", tier, [("typestates", a), ("driver", b)])
+
+
+def c13(tier):
+    combine.t0 = time.time()
+    a = codec_check("C13", tier, ["ts"], [("WireMC.tla", "WireMC_%s.cfg" % tier)],
+                    ["unknown types of every varint length and GREASE values inserted at every position of depth-3 histories; payloads that look like frames"],
+                    _case_basic, _corrupt_out_used, defer=True)
+    noise = ("grease", "unknown", "trailers", "capsule")
+    b = _driver_rules("C13", tier, lambda s: any(any(w in nm for w in noise) for nm in _names(s)),
+                      ["driver-level: GREASE/unknown frames on the control, request and session streams (payloads that look like frames), "
+                       "GREASE/unknown unidirectional stream types with arbitrary content, unknown capsules - alone and before healthy or offending streams"])
+    return combine("C13", tier, [("typestates", a), ("driver", b)])
+
+
+def c17(tier):
+    combine.t0 = time.time()
+    a = codec_check("C17", tier, ["ids"], [("WireMC.tla", "WireMC_%s.cfg" % tier)],
+                    ["ids: four low-bit classes x boundary magnitudes, 0..2047, seeded random; quarter ids via the datagram reader"],
+                    _case_basic, _corrupt_size, defer=True)
+    b = _driver_rules("C17", tier, lambda s: any(nm.startswith("wt_") for nm in _names(s)),
+                      ["driver-level: WebTransport uni/bidi streams naming the live session, a valid unused session, a huge one and "
+                       "non-session stream ids, alone and interleaved with live traffic; foreign datagrams are covered by C03"])
+    return combine("C17", tier, [("ids", a), ("driver", b)])
+
+
+def c18(tier):
+    combine.t0 = time.time()
+    a = codec_check("C18", tier, ["adm"], [("WireMC.tla", "WireMC_%s.cfg" % tier)],
+                    ["header maps: 3^5 pseudo-header combinations x extras; status strings: every integer 0..65535 plus signs/spaces/"
+                     "leading zeros/non-digits; URLs from the identity sub-grammar of WHATWG normalisation"],
+                    _case_basic, _corrupt_size, defer=True)
+    reqs = ("get_request", "no_protocol", "wrong_protocol", "http_scheme", "no_authority", "no_path", "no_method",
+            "bad_qpack", "grease_unknown_then_get", "data_first", "settings_first")
+    b = _driver_rules("C18", tier, lambda s: any(any(nm.startswith(r) for r in reqs) for nm in _names(s)),
+                      ["driver-level: malformed / non-CONNECT requests from a raw client must be refused on their own stream with the connection still usable"])
+    return combine("C18", tier, [("admission", a), ("driver", b)])
+
+
+PROPS.update({"C12": c12, "C13": c13, "C17": c17, "C18": c18})
